@@ -72,6 +72,16 @@ CHECKS = {
             "For each generated file every single deletion of one attribute or one link is applied to a copy with plain h5py and the copy is opened read-only; optional items must be tolerated with all entities present and unrelated content unchanged, mandatory/other items may raise or drop only the described entities and their descendants. The per-file fault space is enumerated completely; files are sampled.",
             "Classification optional / mandatory / other follows the property statement and the '(Optional)' / default marks of the format documentation; only single deletions.",
             "DESIGN.md 3/C19"),
+    "C13": ("spatial", "exploration",
+            "PBT with an independent point-in-closed-box reference on lattice coordinates (exact boundary cases by construction) and face-between-centroids boxes for rotated/dipped grids; oracle for masks, copies, sub-grids and groups",
+            "Generated point clouds, curves, surfaces (arbitrary cells), 2-D grids (any rotation/dip/negative sizes), block models, octrees, drillholes and groups are selected with 2-D/3-D boxes including degenerate, touching, thin and disjoint ones, inverse both ways; mask_by_extent and copy_from_extent are compared with a pure-Python reference selection (cells keep the same coordinates, data follow their elements, 2-D grids give the smallest covering sub-grid with outside values blanked).",
+            "Coordinates and box faces are half-integer (exact in floating point); for arbitrary grid angles box faces lie midway between sorted centroid coordinates so ties cannot occur; tolerance 1e-9*scale for rotated centroids.",
+            "DESIGN.md 3/C13"),
+    "C16": ("spatial", "exploration",
+            "PBT with a coordinate-wise merge oracle (any consistent offset scheme passes, any wrong one fails), running data offsets per (name, type, association), inputs snapshot before/after",
+            "2-4 same-class inputs (points, curves, surfaces, drape models) with arbitrary vertex counts, cells over arbitrary vertex subsets in arbitrary order (trailing unreferenced vertices frequent by construction) and data sets present on some inputs only are merged; vertices must be the concatenation, every merged cell must join the coordinates of its input cell, data are concatenated with no-data fill, inputs stay unchanged.",
+            "Numeric data kinds only (the merger skips text); drape inputs have >=2 prisms; ghost prisms of drape models follow merging/drape_model.py and only non-ghost content is compared.",
+            "DESIGN.md 3/C16"),
 }
 
 NOT_APPLICABLE = {}
@@ -116,6 +126,8 @@ def main():
         "engines": [
             {"name": "tree", "path": "vp/engines/tree.py", "serves_properties": ["C01", "C02", "C05", "C06", "C09", "C12"],
              "kind_free_text": "Hypothesis strategy for operation programs + interpreter with reference model over groups/objects/data/property groups"},
+            {"name": "spatial", "path": "vp/engines/spatial.py", "serves_properties": ["C13", "C16"],
+             "kind_free_text": "lattice geometry builders, closed-box reference, merge oracle"},
             {"name": "faults", "path": "vp/props/c19.py", "serves_properties": ["C19"],
              "kind_free_text": "single-deletion fault enumeration over tree-built files"},
             {"name": "closing", "path": "vp/props/c11.py", "serves_properties": ["C11"],
